@@ -146,6 +146,17 @@ def check(run):
                 cliruns.append({"tag": "cli", "argv": [check_c15.codes(a) if isinstance(a, str) else a for a in argv]})
     if quick:
         cliruns = rnd.sample(cliruns, min(len(cliruns), 2500))
+    # long arguments (the diagnostics they provoke are long too): a valid or invalid head followed by 300 / 1000 / 20000
+    # repetitions of a control character, a separator, a letter or a digit, in every argument position
+    for unit in (27, 7, 10, 127, 46, 97, 49, 45, 32):
+        for n in ((300, 1000) if quick else (300, 1000, 20000)):
+            for head in ("1.0.0", "", ">="):
+                s = check_c15.codes(head) + [unit] * n
+                for name, cmd in (("npm", "compare"), ("debian", "contains"), ("maven", "sort"), ("vers", "contains")):
+                    good = check_c15.codes("1.0.0")
+                    first = check_c15.codes(">=1.0.0" if name != "vers" else "vers:npm/>=1.0.0") if cmd == "contains" else good
+                    for argv in ([name, cmd, s, good], [name, cmd, first, s]):
+                        cliruns.append({"tag": "cli-long", "argv": [check_c15.codes(a) if isinstance(a, str) else a for a in argv]})
     rnd.shuffle(jobs)
     nsh = 12
     shards = [jobs[i::nsh] for i in range(nsh)]
